@@ -705,7 +705,7 @@ func main() {
 	// every position of the two hand-written documents, every replacement
 	h.addDoc([]byte(mailDoc().text()), "valid/mail")
 	h.addDoc([]byte(kitchenDoc().text()), "valid/kitchen")
-	ms, ks := 5, 24
+	ms, ks := 6, 30
 	if thorough {
 		ms, ks = 1, 2
 	}
@@ -713,7 +713,7 @@ func main() {
 	h.mutateAll(kitchenDoc(), "kitchen", r, ks)
 
 	// random type graphs, each mutated at sampled positions
-	nRandom := 70
+	nRandom := 60
 	if thorough {
 		nRandom = 1500
 	}
